@@ -36,7 +36,7 @@ func init() { register(c11{}) }
 func (c11) ID() string { return "C11" }
 func (c11) Rule() string {
 	return "baseline.Encode/Decode (8-bit, 1 or 3 components) and extended.Encode/Decode (8-bit 1/3 components, 12-bit 1 component). The strict T.81 walker reads DQT, SOF and the Tq assignment from the emitted stream; E_t = (1/8)*sum C(u)C(v)Q_t(u,v); bound grey = E_0+2, RGB = |M^-1|(E_Y,E_Cb,E_Cr)+5; every decoded sample within the bound, geometry equal, decoder accepts the stream; quality 100 => grey error <= 10. " +
-		"cases: every quality 1..100 on noise and on a structured image per codec mode; every size in a small square (all partial-block shapes) plus sampled sizes to 33x33 and up to 512; contents: noise, Nyquist checkerboards, one image per DCT basis function (u,v) at full amplitude, black/white extremes, 12-bit ramps. " +
+		"cases: every quality 1..100 on noise and on a structured image per codec mode; every size in a small square (all partial-block shapes) every size to 17x17 (quick, sampled for the wider modes) or 49x49 (thorough) and sampled sizes up to 512; contents: noise, Nyquist checkerboards, one image per DCT basis function (u,v) at full amplitude, black/white extremes, 12-bit ramps. " +
 		"non-trivial: encoder and decoder accepted, the walker parsed DQT/SOF, every sample compared; distinct = distinct descriptor"
 }
 func (c11) Assumptions() []string {
@@ -56,9 +56,13 @@ func (c11) Build(tier string, seed uint64) []any {
 	th := tier == "thorough"
 	k := 0
 	// every quality
+	qClasses := []string{"noise", "structured"}
+	if th {
+		qClasses = []string{"noise", "structured", "structured", "structured", "noise", "structured", "structured", "structured"}
+	}
 	for _, m := range c11Modes {
 		for q := 1; q <= 100; q++ {
-			for _, cl := range []string{"noise", "structured"} {
+			for _, cl := range qClasses {
 				if !th && cl == "structured" && q%4 != int(seed%4) {
 					continue
 				}
@@ -75,7 +79,7 @@ func (c11) Build(tier string, seed uint64) []any {
 	// sizes
 	lim := 17
 	if th {
-		lim = 33
+		lim = 49
 	}
 	for _, m := range c11Modes {
 		for w := 1; w <= lim; w++ {
@@ -124,7 +128,7 @@ func (c11) Build(tier string, seed uint64) []any {
 	// large
 	nBig := 6
 	if th {
-		nBig = 400
+		nBig = 2500
 	}
 	for i := 0; i < nBig; i++ {
 		r := gen.Sub(seed, "C11", "big", i)
